@@ -433,7 +433,7 @@ def stripWs (b : Bytes) : Bytes :=
   ((b.dropWhile B.isWs).reverse.dropWhile B.isWs).reverse
 
 /-- `if self.__expected is not None: if ttype not in self.__expected: raise …; self.__expected = None` -/
-def admit (s : PState) (k : TokKind) : Option PState :=
+def admitTok (s : PState) (k : TokKind) : Option PState :=
   match s.expected with
   | none => some s
   | some exp => if decide (k ∈ exp) then some { s with expected := none } else none
@@ -449,7 +449,7 @@ def ofFn (r : FnResult) : StepResult :=
 
 /-- a token that is not a comment -/
 def stepTok (T : Table) (s : PState) (k : TokKind) (text : Bytes) : StepResult :=
-  match admit s k with
+  match admitTok s k with
   | none => .reject (.expected k (s.expected.getD [])) false
   | some s1 => ofFn (commandFn T s1 k text)
 
